@@ -52,7 +52,14 @@ def gen_case(rng, tier, idx):
                 k = rng.randint(1, len(acts)) if rng.random() < 0.4 else len(acts)
                 sub = sorted(rng.sample(acts, k))
                 pol.append([[a, p] for a, p in zip(sub, dyadic(rng, k))])
-        cfg = dict(world='mdp', policy=kind, pol=pol, start=rng.choice([None] + list(range(v.N))),
+        pol2 = []
+        for s in range(v.N):
+            acts = v.A[s]
+            k = rng.randint(1, len(acts))
+            sub = sorted(rng.sample(acts, k))
+            pol2.append([[a, p] for a, p in zip(sub, dyadic(rng, k))])
+        cfg = dict(world='mdp', policy=kind, pol=pol, pol2=pol2, stored=(kind == 'functional' and rng.random() < 0.5),
+                   update_style=rng.choice(('assign', 'replace')), start=rng.choice([None] + list(range(v.N))),
                    cap=rng.choice((400, 1200)) if long_run else rng.choice((0, 1, 2, 5, 50)), cap_rel=rng.choice((-1, 0, 1)), nsim=rng.choice((1, 3, 10)),
                    ecap=rng.choice((0, 1, 2, 5, 30)))
     else:
@@ -97,7 +104,7 @@ def execute(case, script=None):
         ctx.W = game_W(view)
     ctx.declare_probes('cap_before_absorption', 'cap_at_absorption', 'cap_after_absorption', 'cap_zero', 'start_absorbing',
                        'start_sampled', 'stopped_by_cap', 'stopped_by_absorption', 'pomdp_rollouts', 'mdp_rollouts',
-                       'deterministic_exact_eval', 'long_rollout_400_steps')
+                       'deterministic_exact_eval', 'long_rollout_400_steps', 'policy_updated_in_place')
     sched = make_scheduler(case, script, ctx)
     try:
         if cfg['world'] == 'mdp':
@@ -160,7 +167,13 @@ def _exec_mdp(view, cfg, ctx, sched):
             runs.append(r)
             return r
 
-    base = Rec(lambda s: DictDistribution({ak[a]: p for a, p in pol_tab[sid[s]].items()}))
+    stored = None
+    if cfg.get('stored'):
+        # the policy keeps ONE distribution object per state and hands that object out on every call (a learning policy does)
+        stored = [DictDistribution({ak[a]: p for a, p in row.items()}) for row in pol_tab]
+        base = Rec(lambda s: stored[sid[s]])
+    else:
+        base = Rec(lambda s: DictDistribution({ak[a]: p for a, p in pol_tab[sid[s]].items()}))
     if cfg['policy'] == 'tabular':
         tab = base.to_tabular([sk[i] for i in range(view.N)], [ak[i] for i in range(view.spec['nA'])])
 
@@ -214,6 +227,23 @@ def _exec_mdp(view, cfg, ctx, sched):
         path3, n3 = _check_mdp_rollout(ctx, view, pol_tab, tr3, start, cap3, f'rollout#3(cap={cap3},T={T})')
         ctx.check(path3 == path[:n3 + 1] and n3 == min(cap3, T), 'rollout-stop',
                   lambda: f"same decisions, cap {cap3}: visited {path3}, the uncapped roll-out visited {path} (absorbed after {T})")
+    # 2b. fault F9: the policy is updated in place (same distribution objects, new probabilities) between roll-outs;
+    #     from here on every clause refers to the updated table
+    if stored is not None:
+        new_tab = [{a: p / 8 for a, p in row} for row in cfg['pol2']]
+        for s_, d_ in enumerate(stored):
+            if cfg.get('update_style') == 'replace':
+                d_.clear()
+                d_.update({ak[a]: p for a, p in new_tab[s_].items()})
+            else:
+                for a in set(pol_tab[s_]) | set(new_tab[s_]):
+                    d_[ak[a]] = new_tab[s_].get(a, 0.0)
+        pol_tab[:] = new_tab
+        sched.fire('F9_policy_updated_in_place')
+        ctx.probe('policy_updated_in_place')
+        for j in range(2):
+            tr4 = run(cfg['cap'] if cfg['cap'] <= 60 else 20, rng, f'rollout#4.{j} (after the in-place policy update)')
+            _check_mdp_rollout(ctx, view, pol_tab, tr4, start, cfg['cap'] if cfg['cap'] <= 60 else 20, f'rollout#4.{j} (after the in-place policy update)')
     # 3. Monte-Carlo evaluation
     runs.clear()
     nsim, ecap = cfg['nsim'], cfg['ecap']
